@@ -722,5 +722,19 @@ func c04Expected(p *Prog, r *Report) {
 			}
 			r.Ob(short(key)+":counter", p.Pos(e.Pos), ok, "T: "+how)
 		}
+		// the year label of a slot is the year of the record stored in it (LoadYear selects the slot by this label)
+		nj := 0
+		for _, e := range x.Events {
+			if e.Kind != "assign" || !strings.HasSuffix(e.Root, ".JAR") || len(e.Idx) != 1 {
+				continue
+			}
+			nj++
+			t := e.Val.single()
+			fromDate := t != nil && t.C.Cmp(ratInt(1)) == 0 && len(t.M) == 1 && strings.Contains(t.M[0].A.Key, "Year()")
+			r.Ob(short(key)+":year-label", p.Pos(e.Pos), fromDate, fmt.Sprintf("JAR[%s] = %s (must be the year of the record's own date: a label computed from the slot counter makes a file that starts late or lacks a year pass for the requested years)", e.Idx[0], clip(e.Val.String(), 80)))
+		}
+		if nj == 0 {
+			r.Ob(short(key)+":year-label", "-", false, "the reader never labels its year slots")
+		}
 	}
 }
